@@ -64,6 +64,8 @@ type transpiler struct {
 	Buffer strings.Builder
 	Mode   mode
 	Flags  bitfield.BitField8
+	// the next char is the first element of a non-negated bracket expression
+	escapeCaret bool
 }
 
 // Create a new location struct with the given position.
@@ -288,6 +290,10 @@ func (t *transpiler) nmQuantifier(node *ast.NMQuantifierNode) {
 }
 
 func (t *transpiler) char(node *ast.CharNode) {
+	if t.escapeCaret && node.Value == '^' {
+		t.Buffer.WriteString(`\^`)
+		return
+	}
 	t.Buffer.WriteRune(node.Value)
 }
 
@@ -407,9 +413,13 @@ func (t *transpiler) charClass(node *ast.CharClassNode) {
 			t.Buffer.WriteRune('^')
 		}
 
-		for _, element := range internalNodes {
+		for i, element := range internalNodes {
+			// a literal `^` can only become the first element when the elements
+			// in front of it have been split off, it must not negate the class
+			t.escapeCaret = i == 0 && !node.Negated
 			t.charClassElement(element)
 		}
+		t.escapeCaret = false
 
 		t.Buffer.WriteRune(']')
 	}
@@ -490,6 +500,7 @@ func (t *transpiler) namedCharClass(node *ast.NamedCharClassNode) {
 
 func (t *transpiler) charRange(node *ast.CharRangeNode) {
 	t.charClassElement(node.Left)
+	t.escapeCaret = false
 	t.Buffer.WriteRune('-')
 	t.charClassElement(node.Right)
 }
